@@ -52,6 +52,7 @@ func childMain(args []string) {
 	case "mode":
 		modeProbe(r)
 	case "slow":
+		identicalForwards(r)
 		slowForward(r)
 	case "faulty":
 		for i := 0; i < *n; i++ {
@@ -618,6 +619,71 @@ func faultyForward(r *rand.Rand, idx int) {
 		}
 	}
 	emit(map[string]interface{}{"kind": "faulty-ok", "threads": nth})
+}
+
+// identicalForwards: several clients send the SAME raw request (byte for byte) at the same time, several times; the
+// upstream numbers the requests it serves.  Every request must be served (the count at the end is the number of
+// requests sent) and every caller gets the reply to its own request: no number is handed out twice.
+func identicalForwards(r *rand.Rand) {
+	stop := watchdog("history of identical raw requests", 40*time.Second)
+	defer stop()
+	for _, viaConn := range []bool{false, true} {
+		s, err := newSUT(viaConn, false, nil)
+		if err != nil {
+			emit(map[string]interface{}{"kind": "setup-error", "error": err.Error()})
+			return
+		}
+		const nth, rounds = 4, 3
+		callers := make([]caller, nth)
+		for t := range callers {
+			if callers[t], err = s.caller(); err != nil {
+				emit(map[string]interface{}{"kind": "setup-error", "error": err.Error()})
+				s.close()
+				return
+			}
+		}
+		req := append([]byte{countMark, 0, 120}, []byte("remove the smartcard key of reader 0")...)
+		before := atomic.LoadUint64(&countServed)
+		var mu sync.Mutex
+		seen := map[uint64]int{}
+		var problems []string
+		var wg sync.WaitGroup
+		for t := range callers {
+			wg.Add(1)
+			go func(t int) {
+				defer wg.Done()
+				for k := 0; k < rounds; k++ {
+					resp, err := callers[t].Forward(append([]byte(nil), req...))
+					mu.Lock()
+					switch {
+					case err != nil:
+						problems = append(problems, fmt.Sprintf("client %d: error %q", t, err.Error()))
+					case len(resp) != 1+len(req)+8 || resp[0] != echoMark || !bytes.Equal(resp[1:1+len(req)], req):
+						problems = append(problems, fmt.Sprintf("client %d: reply is not the echo of its request: %s", t, describeReply(resp)))
+					default:
+						seen[binary.BigEndian.Uint64(resp[1+len(req):])]++
+					}
+					mu.Unlock()
+				}
+			}(t)
+		}
+		wg.Wait()
+		served := atomic.LoadUint64(&countServed) - before
+		s.close()
+		for n, k := range seen {
+			if k > 1 {
+				problems = append(problems, fmt.Sprintf("the reply to request number %d of the underlying agent was handed to %d callers", n-before, k))
+			}
+		}
+		if served != nth*rounds {
+			problems = append(problems, fmt.Sprintf("%d identical raw requests were sent by %d clients, the underlying agent served %d", nth*rounds, nth, served))
+		}
+		if len(problems) > 0 {
+			emit(map[string]interface{}{"kind": "slow-problem", "what": "identical raw requests from several clients: " + problems[0], "all": problems, "via_connections": viaConn})
+		} else {
+			emit(map[string]interface{}{"kind": "slow-ok", "via_connections": viaConn})
+		}
+	}
 }
 
 // slowForward: the upstream answers one raw request only after 5.5 s (it does answer).  The caller of that request
